@@ -77,7 +77,8 @@ def run(pid, tier, replay_path, facts, rule, model, assumptions, module='OalTrac
 def check(tier, replay_path=None):
     return run(
         PID, tier, replay_path, facts=False,
-        rule='one evaluation = one generated, name-resolved OAL body (assignments to scalars and attributes, control flow, create/delete, '
+        rule='one evaluation = one generated, name-resolved OAL body (assignments to scalars, attributes and elements of one- and '
+             'two-dimensional array variables, control flow, create/delete, '
              'relate/unrelate, all select forms with where clauses and multi-step chains, function / class operation / instance '
              'operation / bridge invocations as statements and inside expressions with by-name parameters in any order, parameter '
              'reads, enumerators, constants) placed as the action of a function, a bridge, an instance operation or a derived attribute '
@@ -86,6 +87,7 @@ def check(tier, replay_path=None):
              'was written for (OalSyntax!StripB) and that prebuilding the generated text generates the same text again',
         model='OalSyntax.tla (Unparse, StripB) / OalTrace.tla (tree, regenerates_same_text, consistent)',
         assumptions=[
-            'event statements, array elements and port messages are not in this corpus (no state machines or ports are synthesised)',
+            'event statements and port messages are not in this corpus (no state machines or ports are synthesised); arrays are '
+            'variables (no array-valued attributes or parameters)',
             'the callables an action invokes are declared in the model with stub bodies',
         ])
